@@ -222,5 +222,10 @@ func TestC01Big(t *testing.T) {
 			Tree: &model.Node{Kind: k, Bulk: &model.Bulk{N: n, Seed: uint64(i) + verifSeed()}},
 		}
 		runCase[c01Case](t, "C01", "c01", checkC01, c)
+		// the same maximal item as a child of a list, next to a sibling: the children together exceed 16,777,215 bytes,
+		// which is legal (a list's length field counts children)
+		nested := c
+		nested.Tree = &model.Node{Kind: model.L, Children: []model.Child{{Node: c.Tree}, {Node: &model.Node{Kind: model.U2, Elems: []model.Elem{{U: 513}}}}}}
+		runCase[c01Case](t, "C01", "c01", checkC01, nested)
 	}
 }
